@@ -790,6 +790,7 @@ def c10(tier, rep):
     hdr = [(f"hdr:{d}", f"# language: {d}\n" + body, "en") for (n, body, d) in docs[:: 2 if tier == "quick" else 1]]
     plain = [("plain-en", "Feature: f\n  Scenario: s\n    Given a\n    And b\n    * c\n    But d\n    When e\n    And f\n", "en")]
     E.reuse_pass(rep, hdr + plain + hdr[:5] + [x for x in E.src_limits() if not x[0].startswith("count:")] + plain + hdr[:3] + plain, "reuse-headers")
+    E.prepared_matchers_pass(rep, docs + plain + hdr[:10])
     _dialect_table_intact(rep)
 
 
@@ -851,6 +852,7 @@ def c15(tier, rep):
     E.reuse_pass(rep, lim + lim[::-1] + lim, "reuse-limits")
     E.reuse_pass(rep, lim + lim[::-1] + lim, "reuse-limits-french-default", default="fr")
     E.compiler_reuse_pass(rep, lim + lim[::-1], "compiler-reuse-limits")
+    E.prepared_matchers_pass(rep, [x for x in lim if not x[0].startswith("count:")] + E.src_generated(40, SEED + 9, ALL_PURPOSE_DIALECTS))
     E.many_uses_pass(rep, 2500 if tier == "quick" else 20000)
     # determinism across processes: the same documents in interpreters with different string-hash seeds
     import subprocess, sys as _sys
